@@ -238,8 +238,13 @@ def gen_random(rng, max_ops, max_procs, values, min_ops=1):
 
 def permute_ids(rng, seq):
     ids = sorted(set(seq))
-    style = rng.randrange(4)
-    if style == 0:
+    style = rng.randrange(6)
+    if style == 4:
+        new = [2 * i for i in range(len(ids))]                      # gaps, all ids below twice the number of operations
+    elif style == 5:
+        k = rng.choice([1, 30, len(ids) - 1, len(ids), 63, 64])
+        new = [i + k for i in range(len(ids))]                      # shifted block
+    elif style == 0:
         new = rng.sample(range(len(ids)), len(ids))                 # permutation of 0..n-1
     elif style == 1:
         new = rng.sample(range(0, 64 + 2 * len(ids)), len(ids))     # sparse small (around the 64-bit word of the bitset)
@@ -454,6 +459,29 @@ def run(ck):
             groups.append((len(rlines) - 1, len(rlines)))
             rlines.append(mkline(ops, permute_ids(rng, seq)))
     long_first = len(rlines) - nlong - (nlong + 1) // 2
+    # long histories with a CONCURRENT head: h writes (and cas) invoked together - the one invoked first must be linearized after
+    # the others for the tail to be explained - then a long sequential tail of reads / writes; sizes around the 64-bit word
+    # boundaries of the linearized set (the search backtracks into sets that differ only among the first operations)
+    for k in range(40 if quick else 400):
+        n = rng.choice([20, 40, 63, 64, 65, 66, 67, 100, 128, 129, 130, 203])
+        h = rng.choice([3, 3, 4, 5])
+        vals = rng.sample([1, 2, 3, 4, 5], h)
+        ops = ["W%d" % x for x in vals]
+        seq = list(range(h)) + rng.sample(range(h), h)
+        cur = vals[rng.randrange(h)] if rng.random() < 0.85 else 9      # 9: never written (control: not linearizable)
+        if rng.random() < 0.7:
+            cur = vals[0] if cur != 9 else 9                            # the tail sees the write invoked FIRST
+        for i in range(h, n):
+            if rng.random() < 0.12 and cur != 9:
+                cur = rng.choice([1, 2, 3, 4, 5])
+                ops.append("W%d" % cur)
+            else:
+                ops.append("R%d" % cur)
+            seq += [i, i]
+        rlines.append(mkline(ops, seq))
+        if k % 2 == 0:
+            groups.append((len(rlines) - 1, len(rlines)))
+            rlines.append(mkline(ops, permute_ids(rng, seq)))
     for i in rng.sample(range(len(small_lines)), 1500 if quick else 20000):
         ops, seq = parse_line(small_lines[i])
         if ops:
